@@ -254,6 +254,7 @@ def run_check(mod, tier: str, seed: int) -> int:
                 print(l)
             # 3. violations: confirm in a fresh fork, minimise, write + replay the file, report
             reported: set[str] = set()
+            confirmed_violation = False
             cand = [(None, k, s, rr) for (k, s, rr) in pinned_viol] + [(o, k, s, rr) for (o, k, s, rr) in sorted(agg.violations, key=lambda x: x[0])]
             for order, key, spec, rr in cand:
                 vclass = rr["violation"]["class"]
@@ -313,8 +314,13 @@ def run_check(mod, tier: str, seed: int) -> int:
                 if minfo.get("budget_exhausted"):
                     print("  (minimisation budget exhausted; replay file may not be minimal)")
                 print(f"VIOLATION property={mod.ID} replay={path}")
+                confirmed_violation = True
                 if exit_code == EXIT_OK:
                     exit_code = EXIT_VIOLATION
+            if confirmed_violation and exit_code == EXIT_HARNESS and not agg.harness:
+                # at least one violation class was confirmed and replays exactly: that is the verdict (exit 1); a
+                # further class that could not be reproduced exactly stays reported above as HARNESS-ERROR text
+                exit_code = EXIT_VIOLATION
         zstarts = pool.zygote_starts
 
     wall = time.monotonic() - t0
